@@ -38,6 +38,34 @@ type Faulty struct {
 	holdAfter bool
 	Held      chan struct{} // closed when the held call is parked
 	Resume    chan struct{} // close to let it go
+
+	// HonourCtx makes Create, Delete and CasByVersion refuse a call whose context is already done, as a
+	// networked backend does (the in-memory storage ignores the context of these calls).
+	HonourCtx bool
+
+	failDelete int // 1: the next Delete is lost on the way in; 2: it is applied, its reply is lost
+
+	createArmed  bool
+	CreateHeld   chan struct{} // closed when the held Create is parked (before it is applied)
+	CreateResume chan struct{} // close to let it go
+}
+
+// FailNextDelete makes the next Delete fail: its request is lost (applied=false) or its reply is.
+func (f *Faulty) FailNextDelete(applied bool) {
+	f.mu.Lock()
+	f.failDelete = 1
+	if applied {
+		f.failDelete = 2
+	}
+	f.mu.Unlock()
+}
+
+// HoldNextCreate parks the next Create before it is applied.
+func (f *Faulty) HoldNextCreate() {
+	f.mu.Lock()
+	f.createArmed = true
+	f.CreateHeld, f.CreateResume = make(chan struct{}), make(chan struct{})
+	f.mu.Unlock()
 }
 
 // NewFaulty wraps inner.
@@ -80,6 +108,18 @@ func (f *Faulty) Create(ctx context.Context, r kvs.Record) (string, error) {
 		f.log(Event{Op: "create", Key: r.Key, Err: ErrInjected})
 		return "", ErrInjected
 	}
+	if f.HonourCtx && ctx.Err() != nil {
+		f.log(Event{Op: "create", Key: r.Key, Err: ctx.Err()})
+		return "", ctx.Err()
+	}
+	f.mu.Lock()
+	hold, held, resume := f.createArmed, f.CreateHeld, f.CreateResume
+	f.createArmed = false
+	f.mu.Unlock()
+	if hold {
+		close(held)
+		<-resume
+	}
 	v, err := f.Inner.Create(ctx, r)
 	f.log(Event{Op: "create", Key: r.Key, Applied: true, Err: err})
 	return v, err
@@ -90,7 +130,23 @@ func (f *Faulty) Delete(ctx context.Context, key string) error {
 		f.log(Event{Op: "delete", Key: key, Err: ErrInjected})
 		return ErrInjected
 	}
+	if f.HonourCtx && ctx.Err() != nil {
+		f.log(Event{Op: "delete", Key: key, Err: ctx.Err()})
+		return ctx.Err()
+	}
+	f.mu.Lock()
+	fd := f.failDelete
+	f.failDelete = 0
+	f.mu.Unlock()
+	if fd == 1 {
+		f.log(Event{Op: "delete", Key: key, Err: ErrInjected})
+		return ErrInjected
+	}
 	err := f.Inner.Delete(ctx, key)
+	if fd == 2 {
+		f.log(Event{Op: "delete", Key: key, Applied: true, Err: ErrInjected})
+		return ErrInjected
+	}
 	f.log(Event{Op: "delete", Key: key, Applied: true, Err: err})
 	return err
 }
@@ -109,6 +165,10 @@ func (f *Faulty) CasByVersion(ctx context.Context, r kvs.Record) (kvs.Record, er
 	if fail {
 		f.log(Event{Op: "cas", Key: r.Key, Ver: r.Version, Err: ErrInjected})
 		return kvs.Record{}, ErrInjected
+	}
+	if f.HonourCtx && ctx.Err() != nil {
+		f.log(Event{Op: "cas", Key: r.Key, Ver: r.Version, Err: ctx.Err()})
+		return kvs.Record{}, ctx.Err()
 	}
 	if hold && !after {
 		close(held)
